@@ -436,6 +436,10 @@ type LimitSpec struct {
 	RegMax    int    `json:"reg_max"`
 	CallStack int    `json:"call_stack"`
 	TimeoutMs int    `json:"timeout_ms"`
+	// what the consumer's state goes through before the first receive and again after every failed
+	// call (round robin): byte / unpack = an error raised while the registry is completely full,
+	// rec = unbounded recursion, co = an error raised inside a coroutine with a full registry
+	History []string `json:"history,omitempty"`
 }
 
 // A consumer that receives at the bottom of a recursion of growing depth, under pcall, and retries
@@ -482,6 +486,23 @@ else
 end
 local function g(d, ...) local a = f(d) return a end
 local function pad(k) local t = {} for i = 1, k do t[i] = i end return unpack(t) end
+local big = string.rep("x", REGMAX + 200)
+local bigt = {}
+for i = 1, REGMAX + 200 do bigt[i] = i end
+local hsteps = {
+  byte = function() local a = string.byte(big, 1, -1) return a end,
+  unpack = function() local a = unpack(bigt) return a end,
+  rec = function() local function r(n) return 1 + r(n + 1) end return r(1) end,
+  co = function() coroutine.wrap(function() local a = string.byte(big, 1, -1) end)() end,
+}
+local nhist = 0
+local function history()
+  if HIST then
+    nhist = nhist + 1
+    pcall(hsteps[HIST[(nhist - 1) % #HIST + 1]])
+  end
+end
+if HIST then for i = 1, #HIST do history() end end
 local k, d, rounds = 0, 2, 0
 while not closed and rounds < 200000 do
   rounds = rounds + 1
@@ -493,6 +514,7 @@ while not closed and rounds < 200000 do
     k = k + 1
     d = 2
     if k > 50 then k = 0 end
+    history()
   end
 end
 return got, failures, disorder
@@ -519,6 +541,18 @@ func runLimit(spec *LimitSpec) Result {
 		L.SetGlobal("CHAN", lua.LChannel(ch))
 		L.SetGlobal("MODE", lua.LString(spec.Mode))
 		L.SetGlobal("FAT", lua.LBool(spec.Fat))
+		regmax := spec.RegSize
+		if spec.RegMax > regmax {
+			regmax = spec.RegMax
+		}
+		L.SetGlobal("REGMAX", lua.LNumber(regmax))
+		if len(spec.History) > 0 {
+			ht := L.NewTable()
+			for _, s := range spec.History {
+				ht.Append(lua.LString(s))
+			}
+			L.SetGlobal("HIST", ht)
+		}
 		fn, err := L.LoadString(limitConsumer)
 		if err != nil {
 			res <- out{err: err}
